@@ -97,7 +97,7 @@ func splitServerName(serverName ServerName) (string, int) {
 
 	portStr := nameStr[lastColon+1:]
 	port, err := strconv.ParseUint(portStr, 10, 16)
-	if err != nil {
+	if err != nil || len(portStr) > 5 {
 		// invalid port (possibly an ipv6 host)
 		return nameStr, -1
 	}
